@@ -21,7 +21,9 @@ MaxOf(S) == CHOOSE x \in S : \A y \in S : x >= y
 (* connection.  "recvset": a block of messages whose order is unspecified. *)
 (***************************************************************************)
 Rv(m)    == [k |-> "recv", m |-> m]
-Cb(c)    == [k |-> "cb", c |-> c]
+\* every callback also reports whether everything the library handed to
+\* callbacks so far (and the harness retained) still has its content: always
+Cb(c)    == [k |-> "cb", c |-> c @@ [intact |-> TRUE]]
 CloseEv  == [k |-> "close"]
 RvSet(S) == [k |-> "recvset", ms |-> S]
 
